@@ -213,11 +213,16 @@ pub fn run_prop(ctx: &Ctx, sink: &mut Sink) {
         let rx_tok = format!("regex:{}:{sx2}:{}", ic as u8, wire(&re));
         let pat = print(&re, sx2);
         let prim = if ic { "-iregex" } else { "-regex" };
-        let arrangement = if fixed { round % 4 } else { rng.below(4) };
+        // (arrangement 4: two patterns behind one -regextype - the syntax stays in force for both)
+        let arrangement = if fixed { if round % 8 == 7 { 4 } else { round % 4 } } else { rng.below(5) };
+        let first = Re::Seq(Box::new(str_re("d/zz")), Box::new(Re::Chr('q')));
+        let first_tok = format!("regex:0:{sx2}:{}", wire(&first));
         let (toks, argv): (Vec<String>, Vec<String>) = match arrangement {
             0 => (vec![format!("regextype:{sx2}"), rx_tok.clone()], vec!["-regextype".into(), t2.into(), prim.into(), pat.clone()]),
             1 => (vec![format!("regextype:{sx2}"), "lp".into(), rx_tok.clone(), "rp".into()], vec!["-regextype".into(), t2.into(), "(".into(), prim.into(), pat.clone(), ")".into()]),
             2 => (vec![format!("regextype:{sx1}"), "lp".into(), format!("regextype:{sx2}"), rx_tok.clone(), "rp".into()], vec!["-regextype".into(), t1.into(), "(".into(), "-regextype".into(), t2.into(), prim.into(), pat.clone(), ")".into()]),
+            4 => (vec![format!("regextype:{sx2}"), "lp".into(), first_tok.clone(), "o".into(), rx_tok.clone(), "rp".into()],
+                  vec!["-regextype".into(), t2.into(), "(".into(), "-regex".into(), print(&first, sx2), "-o".into(), prim.into(), pat.clone(), ")".into()]),
             _ => (vec!["lp".into(), format!("regextype:{sx2}"), "rp".into(), rx_tok.clone()], vec!["(".into(), "-regextype".into(), t2.into(), ")".into(), prim.into(), pat.clone()]),
         };
         let mut args: Vec<String> = vec!["d".into(), "-sorted".into()];
